@@ -93,6 +93,24 @@ def _run_one_fast(args):
     return tr
 
 
+def _run_pair(args):
+    """C08: base history + variant with redundant updates/reads inserted."""
+    seed, idx, kw, lazy_p = args
+    rng = random.Random((seed * 1000003 + idx) & 0xFFFFFFFF)
+    ckw = {k: v for k, v in kw.items() if k in ("tree", "T", "comm", "spread", "integer", "late", "crash", "D")}
+    gkw = {k: v for k, v in kw.items() if k in treegen.GEN_KEYS}
+    gkw["p_unsettled"] = 0.0
+    C = treegen.make_C(rng, **ckw)
+    g = treegen.HistoryGen(rng, C, **gkw)
+    lazy = rng.random() < lazy_p
+    base = treedrv.run_online(C, g, tid=2 * idx + 1, lazy=lazy)
+    if "setup_exc" in base:
+        return [base]
+    b, v = treedrv.run_variant(C, base["ops"], rng, tid=2 * idx + 1, lazy=lazy)
+    b["lazy"] = v["lazy"] = lazy
+    return [b, v]
+
+
 def classify(rep, prop, traces, verdicts, known_db):
     """Turn TLC verdicts into violations / known findings of `prop`."""
     by_tid = {t["tid"]: t for t in traces}
@@ -157,7 +175,14 @@ def run(prop, tier, replay=None):
     n = prof["n"][0] if tier == "quick" else prof["n"][1]
     kw = dict(prof["gen"])
     jobs = [(seed, i, kw, prof["lazy"]) for i in range(n)]
-    traces = common.pool_map(_run_one_fast, jobs)
+    if prop == "C08":
+        npairs = n // 3
+        traces = common.pool_map(_run_one_fast, jobs[: n - 2 * npairs])
+        for pr in common.pool_map(_run_pair, [(seed, 50000 + i, kw, prof["lazy"]) for i in range(npairs)]):
+            traces.extend(pr)
+        rep.extra["variant_pairs"] = npairs
+    else:
+        traces = common.pool_map(_run_one_fast, jobs)
     setup_fail = [t for t in traces if "setup_exc" in t]
     traces = [t for t in traces if "setup_exc" not in t]
     if setup_fail:
